@@ -126,12 +126,14 @@ def read_ndbc_ascii(filename, dirs=np.arange(0, 360, 10)):
         df_swr1 = read_file(filename[3])
         df_swr2 = read_file(filename[4])
         dirs = np.array(dirs)
+        # r1, r2 are stored in hundredths in the history files (only realtime files have Sep_Freq)
+        rscale = 1.0 if sep_freq is not None else 0.01
         specdens = construct_spectra(
             specdens,
             df_swdir.values.reshape(spshape),
             df_swdir2.values.reshape(spshape),
-            df_swr1.values.reshape(spshape),
-            df_swr2.values.reshape(spshape),
+            df_swr1.values.reshape(spshape) * rscale,
+            df_swr2.values.reshape(spshape) * rscale,
             dirs,
         )
     coords = OrderedDict(
